@@ -19,6 +19,9 @@ def _build():
     global _exe, _failed
     if _exe or _failed:
         return _exe
+    if os.environ.get("GLUE_NO_HELPER"):
+        _failed = HelperError("disabled by GLUE_NO_HELPER")
+        return None
     try:
         bdir = os.path.join(os.environ.get("VERIF_BUILD", os.path.join(_VERIF, "build")), "glue")
         os.makedirs(bdir, exist_ok=True)
